@@ -8,9 +8,12 @@ with the executable specification under three hypotheses about the parallel run 
 succeeds when it runs alone from the starting tree), `hdisj` (`KeysDisjoint`: the file keys of different workers are
 prefix-free) and `hpar` (the run returned `.ok`).  This file discharges all three from the static hypotheses of
 `C05_driver_succeeds` (`RQ/Props/C05Complete.lean`) and ONE more: `RejPrefixFree` (section 7) — no reject path
-`<name>.rej` is a directory of another reject path.  That one is needed: the main thread writes the reject files worker
-by worker, not in series order, and `a.rej` written before `a.rej/b.rej` makes the latter fail (decided counterexample
-in `RQ/Props/C06Complete.lean`).  `PatchPathsDistinct` is NOT needed.
+`<name>.rej` is a directory of another reject path.  That one was needed before the repair of the finding
+`rej-dir-order`: the main thread writes the reject files worker by worker, not in series order, and `a.rej` written before
+`a.rej/b.rej` made the latter fail with `ENOTDIR`.  `save_rej_files` now bypasses such a reject (`Push.World.opRej`; the
+decided examples `Fixed.rejOrder`, `Fixed.rejOrder_converse` in `RQ/Props/C06Complete.lean` show the repaired behaviour);
+the hypothesis is kept because the argument of section 5 (reordering the reject files) uses it.  `PatchPathsDistinct` is
+NOT needed.
 
 1. The parsed range against `patchOf` (`parseRange_patchOf`, `parseRange_take`, `parseRange_of_clean`).
 2. A worker's cache through the apply phase and the rollbacks: `existed` is truthful (`MemLd`, `runW_ld`,
@@ -836,19 +839,19 @@ open RQ.BackupDisk (isFile_iff_fileAt)
 open RQ.ParRefine (op_dir saveRejFiles_tinv putFile_step)
 
 
-/-- a reject file can be written at `k` (or is skipped because its directory does not exist) -/
+/-- a reject file can be written at `k` (or is skipped because its directory does not exist, or bypassed because
+something on the way to it is a regular file: `ENOTDIR`) -/
 structure RejOK (fs : FS) (k : Key) : Prop where
   ne : k ≠ []
-  path : fs.fileOnPath k = false
-  notDir : fs.isDir k.dropLast = true → fs.lookup k ≠ some .dir
+  notDir : fs.fileOnPath k = false → fs.isDir k.dropLast = true → fs.lookup k ≠ some .dir
 
 -- R4: `RejOK` only looks outside `.pc`
 theorem RejOK.outside {a b : FS} {k : Key} (h : OutsidePc a b) (hk : ¬ isPcKey k) (ha : RejOK a k) : RejOK b k := by
-  refine ⟨ha.ne, ?_, ?_⟩
-  · rw [← h.fileOnPath_eq hk]; exact ha.path
-  · intro hd hl
-    rw [← h.isDir_eq (not_isPcKey_dropLast hk)] at hd
-    exact ha.notDir hd (op_dir h.symm hk hl)
+  refine ⟨ha.ne, ?_⟩
+  intro hp hd hl
+  rw [← h.fileOnPath_eq hk] at hp
+  rw [← h.isDir_eq (not_isPcKey_dropLast hk)] at hd
+  exact ha.notDir hp hd (op_dir h.symm hk hl)
 
 /-! ### one reject file, seen from the other reject paths -/
 
@@ -867,33 +870,53 @@ structure FStep (a b : FS) (k : Key) : Prop where
 
 /-- forward: a reject path `k'` stays writable, unless the written path is a strict prefix of it -/
 theorem RejOK.fwd {a b : FS} {k k' : Key} (h : FStep a b k) (hs : ¬ SPre k k') (ha : RejOK a k') : RejOK b k' := by
-  refine ⟨ha.ne, ?_, ?_⟩
-  · rw [fileOnPath_false_iff]
+  refine ⟨ha.ne, ?_⟩
+  intro hp hd hl
+  have hpa : a.fileOnPath k' = false := by
+    rw [fileOnPath_false_iff] at hp ⊢
     intro q hq hq0 hf
     have hqk : q ≠ k := fun e => hs (e ▸ hq)
     have h1 := isFile_iff_fileAt.mp hf
-    rw [h.other q hqk] at h1
-    exact (fileOnPath_false_iff a k').mp ha.path q hq hq0 (isFile_iff_fileAt.mpr h1)
-  · intro hd hl
-    rw [h.dir] at hd
-    have h2 := (lookup_dir_iff_isDir ha.ne).mp hl
-    rw [h.dir] at h2
-    exact ha.notDir hd ((lookup_dir_iff_isDir ha.ne).mpr h2)
+    rw [← h.other q hqk] at h1
+    exact hp q hq hq0 (isFile_iff_fileAt.mpr h1)
+  rw [h.dir] at hd
+  have h2 := (lookup_dir_iff_isDir ha.ne).mp hl
+  rw [h.dir] at h2
+  exact ha.notDir hpa hd ((lookup_dir_iff_isDir ha.ne).mpr h2)
 
-/-- backward: a reject path that is writable afterwards was writable before -/
-theorem RejOK.bwd {a b : FS} {k k' : Key} (h : FStep a b k) (hb : RejOK b k') : RejOK a k' := by
-  refine ⟨hb.ne, ?_, ?_⟩
-  · rw [fileOnPath_false_iff]
-    intro q hq hq0 hf
-    refine (fileOnPath_false_iff b k').mp hb.path q hq hq0 (isFile_iff_fileAt.mpr ?_)
-    by_cases hqk : q = k
-    · rw [hqk]; exact h.self
-    · rw [h.other q hqk]; exact isFile_iff_fileAt.mp hf
-  · intro hd hl
+/-- backward: a reject path that is writable afterwards was writable before.  If the written path `k` is on the way to
+`k'`: `k` was no directory, so — on a tree whose nodes have directories as parents — the directory of `k'` did not
+exist -/
+theorem RejOK.bwd {a b : FS} {k k' : Key} (h : FStep a b k) (hwf : WFo a) (hpc : ¬ isPcKey k') (hk0 : k ≠ [])
+    (hnd : a.lookup k ≠ some .dir) (hb : RejOK b k') : RejOK a k' := by
+  refine ⟨hb.ne, ?_⟩
+  intro hp hd hl
+  by_cases hs : SPre k k'
+  · have hkl : 0 < k.length := List.length_pos_iff.mpr hk0
+    have hdl : k'.dropLast ≠ [] := by
+      intro e
+      have := congrArg List.length e
+      rw [List.length_dropLast] at this
+      simp only [List.length_nil] at this
+      have := hs.1
+      omega
+    have hdir : a.lookup k'.dropLast = some .dir := (lookup_dir_iff_isDir hdl).mpr hd
+    rcases spre_dropLast_or_eq hs with e | hs'
+    · rw [← e] at hdir; exact hnd hdir
+    · have := hwf k'.dropLast (not_isPcKey_dropLast hpc) _ hdir k.length hkl hs'.1
+      rw [hs'.2] at this
+      exact hnd this
+  · have hpb : b.fileOnPath k' = false := by
+      rw [fileOnPath_false_iff] at hp ⊢
+      intro q hq hq0 hf
+      have hqk : q ≠ k := fun e => hs (e ▸ hq)
+      have h1 := isFile_iff_fileAt.mp hf
+      rw [h.other q hqk] at h1
+      exact hp q hq hq0 (isFile_iff_fileAt.mpr h1)
     rw [← h.dir] at hd
     have h2 := (lookup_dir_iff_isDir hb.ne).mp hl
     rw [← h.dir] at h2
-    exact hb.notDir hd ((lookup_dir_iff_isDir hb.ne).mpr h2)
+    exact hb.notDir hpb hd ((lookup_dir_iff_isDir hb.ne).mpr h2)
 
 /-- the driver's unlink–create–write is such a step -/
 theorem putPlain_fstep {a b' : FS} {k : Key} {c : Bytes} (hp : putPlain a k c = .ok b') : FStep a b' k := by
@@ -918,21 +941,22 @@ theorem putPlain_fstep {a b' : FS} {k : Key} {c : Bytes} (hp : putPlain a k c = 
       simp
 
 /-- a writable reject path whose directory exists: the unlink does not fail and create/write succeed -/
-theorem putPlain_of_rejOK {a : FS} {k : Key} (c : Bytes) (hok : RejOK a k) (hd : a.isDir k.dropLast = true) :
+theorem putPlain_of_rejOK {a : FS} {k : Key} (c : Bytes) (hok : RejOK a k) (hfp0 : a.fileOnPath k = false)
+    (hd : a.isDir k.dropLast = true) :
     a.removeFile k ≠ .error .other ∧ ∃ b', putPlain a k c = .ok b' := by
-  have hnd := hok.notDir hd
+  have hnd := hok.notDir hfp0 hd
   constructor
-  · rcases removeFile_cases hok.ne hok.path hnd with ⟨h, _⟩ | ⟨h, _⟩ <;> rw [h] <;> intro e <;> cases e
+  · rcases removeFile_cases hok.ne hfp0 hnd with ⟨h, _⟩ | ⟨h, _⟩ <;> rw [h] <;> intro e <;> cases e
   · obtain ⟨hne, hself⟩ := unlink_cases a k
     have hun : (unlinked a k).lookup k = none := by
       rcases hself with ⟨e, _⟩ | ⟨_, hbad⟩
       · exact e
       · rcases hbad with hb | hb
-        · rw [hok.path] at hb; cases hb
+        · rw [hfp0] at hb; cases hb
         · exact absurd hb hnd
     have hfp : (unlinked a k).fileOnPath k = false := by
       have := fileOnPath_congr (a := a) (b := unlinked a k) (k := k) (fun q hs => by rw [hne q (spre_ne hs)])
-      rw [this]; exact hok.path
+      rw [this]; exact hfp0
     have hdir : (unlinked a k).isDir k.dropLast = true := by
       have hdk : k.dropLast ≠ k := spre_ne (dropLast_spre hok.ne)
       unfold FS.isDir at hd ⊢
@@ -947,18 +971,23 @@ theorem rej_one {w : World} {S : List Key} {name content : Bytes} {rest : List (
     (hok : RejOK w.fs k) :
     ∃ w1, saveRejFiles w ((name, content) :: rest) = saveRejFiles w1 rest ∧ w1.faultAt = none ∧ TInv w1.fs S ∧
       ∀ k', RejOK w.fs k' → ¬ SPre k k' → RejOK w1.fs k' := by
+  cases hfp : w.fs.fileOnPath k with
+  | true =>
+    obtain ⟨w1, e1, f1, hfs⟩ := rej_blocked (content := content) (rest := rest) hf hk hfp
+    exact ⟨w1, e1, f1, by rw [hfs]; exact hi, fun k' h _ => by rw [hfs]; exact h⟩
+  | false =>
   cases hd : w.fs.isDir k.dropLast with
   | false =>
-    obtain ⟨w1, e1, f1, hfs⟩ := rej_skip (content := content) (rest := rest) hf hk hpc hi.wf hok.path hd
+    obtain ⟨w1, e1, f1, hfs⟩ := rej_skip (content := content) (rest := rest) hf hk hpc hi.wf hfp hd
     exact ⟨w1, e1, f1, by rw [hfs]; exact hi, fun k' h _ => by rw [hfs]; exact h⟩
   | true =>
-    obtain ⟨hrm, b', hpl⟩ := putPlain_of_rejOK content hok hd
-    obtain ⟨w0, e0, _, hfs0⟩ := rej_write (rest := []) hf hk hrm hpl
+    obtain ⟨hrm, b', hpl⟩ := putPlain_of_rejOK content hok hfp hd
+    obtain ⟨w0, e0, _, hfs0⟩ := rej_write (rest := []) hf hk hfp hrm hpl
     have ht : TInv b' S := by
       rw [← hfs0]
       refine saveRejFiles_tinv [(name, content)] w w0 S hi ?_
       rw [e0]; unfold saveRejFiles; rfl
-    obtain ⟨w1, e1, f1, hfs⟩ := rej_write (rest := rest) hf hk hrm hpl
+    obtain ⟨w1, e1, f1, hfs⟩ := rej_write (rest := rest) hf hk hfp hrm hpl
     have hstep := putPlain_fstep hpl
     exact ⟨w1, e1, f1, by rw [hfs]; exact ht, fun k' h hs => by rw [hfs]; exact RejOK.fwd hstep hs h⟩
 
@@ -980,7 +1009,14 @@ theorem putRejects_rejOK : ∀ (rejs : List (Bytes × Bytes)), RejsOut rejs → 
       simp only at h
       have hk' : ¬ isPcKey k := hr (name, content) (List.mem_cons_self ..) k hk
       split at h
-      · cases h
+      · -- something on the way to `k` is a regular file: the reject is bypassed on both sides
+        rename_i hfp
+        rcases List.mem_cons.mp hm with e | hm'
+        · subst e
+          refine ⟨k, hk, ?_, fun hp => ?_⟩
+          · intro e; subst e; simp [FS.fileOnPath] at hfp
+          · rw [hp] at hfp; cases hfp
+        · exact ih hrest a a' S hi h r hm'
       · rename_i hfp
         have hfp' : a.fileOnPath k = false := by simpa using hfp
         cases hd : a.isDir k.dropLast with
@@ -989,7 +1025,7 @@ theorem putRejects_rejOK : ∀ (rejs : List (Bytes × Bytes)), RejsOut rejs → 
           simp only [Bool.not_false, if_true] at h
           rcases List.mem_cons.mp hm with e | hm'
           · subst e
-            refine ⟨k, hk, ?_, hfp', fun hd' => ?_⟩
+            refine ⟨k, hk, ?_, fun _ hd' => ?_⟩
             · intro e; subst e; simp [FS.isDir] at hd
             · rw [hd] at hd'; cases hd'
           · exact ih hrest a a' S hi h r hm'
@@ -1002,10 +1038,12 @@ theorem putRejects_rejOK : ∀ (rejs : List (Bytes × Bytes)), RejsOut rejs → 
             rcases List.mem_cons.mp hm with e | hm'
             · subst e
               have ho := okw_of_putFile ha1
-              exact ⟨k, hk, ho.ne, ho.path, fun _ => ho.notDir⟩
+              exact ⟨k, hk, ho.ne, fun _ _ => ho.notDir⟩
             · obtain ⟨s1, s2, s3, s4⟩ := putFile_step hi hk' hd hfp' ha1
               obtain ⟨k2, hk2, hok⟩ := ih hrest a1 a' S s1 h r hm'
-              exact ⟨k2, hk2, RejOK.bwd ⟨s2, s4, by rw [s3]; simp⟩ hok⟩
+              have ho := okw_of_putFile ha1
+              exact ⟨k2, hk2, RejOK.bwd ⟨s2, s4, by rw [s3]; simp⟩ hi.wf
+                (hr r (List.mem_cons_of_mem _ hm') k2 hk2) ho.ne ho.notDir hok⟩
 
 -- R2: the driver's loop over one list
 theorem saveRejFiles_succeeds' : ∀ (rejs : List (Bytes × Bytes)) (w : World) (S : List Key),
